@@ -162,7 +162,28 @@ func runC04(env *core.Env) {
 		pres = append(pres, big)
 		preNames = append(preNames, "S_A+45-finished-tasks")
 	}
+	{
+		// stores with no events yet: a fresh init (empty log) and a bare .ergo without a log file
+		pres = append(pres, core.Store{"D:.ergo": nil, ".ergo/lock": {}, ".ergo/plans.jsonl": {}, "out.txt": []byte("result\n")})
+		preNames = append(preNames, "fresh-init")
+		pres = append(pres, core.Store{"D:.ergo": nil, ".ergo/lock": {}, "out.txt": []byte("result\n")})
+		preNames = append(preNames, "no-log-file-yet")
+	}
 	cmds := c04Commands(f)
+	{
+		// a plan whose events take several buffered writes (> 4 KiB)
+		var sb strings.Builder
+		sb.WriteString(`{"title":"big plan","tasks":[`)
+		for i := 0; i < 40; i++ {
+			if i > 0 {
+				fmt.Fprintf(&sb, `,{"title":"step %02d","after":["step %02d"]}`, i, i-1)
+			} else {
+				sb.WriteString(`{"title":"step 00"}`)
+			}
+		}
+		sb.WriteString(`]}`)
+		cmds = append(cmds, crashCmd{"plan-40-chain", core.R("", "--json", "plan").In(sb.String())})
+	}
 	type job struct {
 		pre int
 		cmd crashCmd
@@ -222,9 +243,21 @@ func runC04(env *core.Env) {
 				samples.add(map[string]interface{}{"pre": preNames[j.pre], "cmd": j.cmd.Req.Shell(), "killed_on_entry_to": ref.Calls[target].String(), "state_seen": verdict})
 			}
 			if verdict == "before" || verdict == "after" {
-				continue
+				// what the crash left must also stay put when the next process merely takes the store lock and looks
+				// (a dry-run prune): no leftover of the killed command may be "completed" into the log by it
+				w.Run(core.R(root, "--json", "prune"))
+				o3 := core.ObserveW(w, root)
+				if n3 := o3.Norm(o3.TitleMap()); o3.Fail == "" && n3 == norm {
+					continue
+				} else {
+					verdict = "changed-by-a-later-dry-run"
+					obs, norm = o3, n3
+				}
 			}
 			sig := fmt.Sprintf("C04 kind=half-applied %s", familyOf(j.cmd.Req))
+			if verdict == "changed-by-a-later-dry-run" {
+				sig = fmt.Sprintf("C04 kind=leftover-of-the-killed-command-applied-by-a-later-command %s", familyOf(j.cmd.Req))
+			}
 			if verdict == "unreadable" {
 				sig = fmt.Sprintf("C04 kind=unreadable-after-kill %s", familyOf(j.cmd.Req))
 			}
@@ -240,6 +273,9 @@ func runC04(env *core.Env) {
 					break
 				}
 				st2.Materialize(root)
+				if verdict == "changed-by-a-later-dry-run" {
+					w.Run(core.R(root, "--json", "prune"))
+				}
 				o2 := core.ObserveW(w, root)
 				n2 := o2.Norm(o2.TitleMap())
 				if (o2.Fail == "") != (obs.Fail == "") || n2 == normB || n2 == normA {
@@ -253,8 +289,13 @@ func runC04(env *core.Env) {
 			}
 			detail := fmt.Sprintf("pre=%s: `%s` killed on entry to its mutating call %d of %d (%s): the store is neither as before nor as after the command.\n--- observed\n%s--- before\n%s--- after\n%s",
 				preNames[j.pre], j.cmd.Req.Shell(), n+1, len(mut), ref.Calls[target], diffLines(norm, normB, normA), "", "")
-			env.Violation(sig, detail, crashReplay{Kind: "crash", Check: "C04", Store: pre, Req: j.cmd.Req, Target: target, Call: ref.Calls[target].String(),
-				Shell: j.cmd.Req.Shell(), Note: "kill on entry to the given traced call (strace inject=...:signal=SIGKILL)"})
+			art := crashReplay{Kind: "crash", Check: "C04", Store: pre, Req: j.cmd.Req, Target: target, Call: ref.Calls[target].String(),
+				Shell: j.cmd.Req.Shell(), Note: "kill on entry to the given traced call (strace inject=...:signal=SIGKILL)"}
+			if verdict == "changed-by-a-later-dry-run" {
+				art.Follow = []core.Req{core.R("", "--json", "prune")}
+				art.Note += "; then `ergo --json prune` (dry run)"
+			}
+			env.Violation(sig, detail, art)
 		}
 	})
 	env.Finish("model_checking", map[string]interface{}{
